@@ -156,6 +156,9 @@ func (e Env) Coalesce(xs ...interface{}) interface{} {
 	return nil
 }
 
+// Tuple also has the fast-call shape and hands its argument slice back to the caller.
+func (e Env) Tuple(xs ...interface{}) interface{} { return xs }
+
 // Overload candidates on built-in operand types (C02: operator patching happens before the optimiser).
 func (e Env) JoinSp(a, b string) string { return a + " " + b }
 func (e Env) SafeDiv(a, b int) int {
